@@ -356,6 +356,7 @@ func checkValue(name string, p packet.Generic) (fails []explore.ClauseFail) {
 	}
 	defer func() {
 		if r := recover(); r != nil {
+			explore.EngineFault(r)
 			fail("no-panic", "panic: %v", r)
 		}
 	}()
